@@ -505,6 +505,14 @@ impl State {
         ) = self.inner
         {
             if force || rotation_state.roll_state.rotation_necessary() {
+                // The file that is closed now must be complete before it gets its final name and
+                // before the next file exists: from then on the cleanup, possibly in another
+                // thread, takes it for a closed file and may compress or remove it.
+                // (A buffering writer swallows errors when it is dropped.)
+                current_write.flush().unwrap_or_else(|e| {
+                    eprint_err(ErrorCode::Flush, "flushing the rotated file failed", &e);
+                });
+
                 let infix = match rotation_state.naming_state {
                     NamingState::Timestamps {
                         current_timestamp: ref mut ts,
@@ -545,10 +553,6 @@ impl State {
                 #[cfg(flexi_logger_verif)]
                 crate::verif_hooks::sync_op(crate::verif_hooks::Op::Point("rotation_opened"));
 
-                // a buffering writer swallows errors when it is dropped
-                current_write.flush().unwrap_or_else(|e| {
-                    eprint_err(ErrorCode::Flush, "flushing the rotated file failed", &e);
-                });
                 *current_write = new_write;
                 *current_path = new_path;
 
